@@ -310,6 +310,22 @@ class C16:
                             S.run([ver_line(rp.json(0), a, b)], expect=reject, label="out-of-range-proof-rejected")
                         elif rp.status not in ("PANIC",):
                             P.fail(S, "out-of-range-prover", "unexpected outcome " + rp.status, [str(v)])
+            # F11: drive the prover into the gap between the old prover bound 2^(T+t+l) b - 1 and the verifier's bound: replay an
+            # honest run's draws with w of proof_large_i_a forced to 2^(T+t+l) b - 2^(T-1); the proof returned must still verify
+            a, b = 0, 2**256 - 1; v = 12345; T = range_T(a, b)
+            r = rng.getrandbits(x.P["ln"]) | (1 << (x.P["ln"] - 1))
+            E = pow(g, v, n) * pow(h, r, n) % n
+            base = "clrpprove %s %d %s %d %d %d %d %d" % (suite, v, zl([E, r]), g, h, n, a, b)
+            r0 = S.run([base], expect="ok", label="triv:prove")[0]
+            dr = parse_draws(r0)
+            if r0.status == "OK" and len(dr) >= 12 and all(k == "int" for k, _, _ in dr[:12]):
+                vals = [d[2] for d in dr]
+                vals[10] = (1 << (T + BT + BL)) * b - (1 << (T - 1))
+                q = "Q" + "".join("," + str(z).encode().hex() for z in vals[:12])
+                rf = S.run([q + " " + base], expect="ok", label="F11:forced-gap-prove")[0]
+                if rf.status == "OK":
+                    S.run([ver_line(rf.json(0), a, b)], expect=true_, label="F11:forced-gap-verify")
+                    stats["forced_gap"] = stats.get("forced_gap", 0) + 1
             # intervals with a non-positive upper bound (F13)
             for (a, b, v) in ((-10, -5, -7), (-1, 0, 0)):
                 r = rng.getrandbits(100)
